@@ -558,14 +558,17 @@ class QuorumSensing:
         prior_block = 0.5
 
         # Update belief based on each vote
+        # A vote is evidence for its own side and against the other side
         for vote in permit_votes:
             # Higher confidence = more influence
             likelihood = 0.5 + (vote.confidence * 0.4)  # 0.5-0.9
             prior_permit = self._bayesian_update(prior_permit, likelihood, vote.weight)
+            prior_block = self._bayesian_update(prior_block, 1.0 - likelihood, vote.weight)
 
         for vote in block_votes:
             likelihood = 0.5 + (vote.confidence * 0.4)
             prior_block = self._bayesian_update(prior_block, likelihood, vote.weight)
+            prior_permit = self._bayesian_update(prior_permit, 1.0 - likelihood, vote.weight)
 
         # Normalize
         total = prior_permit + prior_block
@@ -574,7 +577,7 @@ class QuorumSensing:
         else:
             posterior_permit = 0.5
 
-        reached = posterior_permit > threshold
+        reached = len(permit_votes) > 0 and posterior_permit > threshold
         decision = VoteType.PERMIT if reached else VoteType.BLOCK
 
         return QuorumResult(
@@ -595,9 +598,11 @@ class QuorumSensing:
         """Apply Bayesian update with weighted evidence."""
         # Weighted likelihood based on agent weight
         adjusted_likelihood = 0.5 + (likelihood - 0.5) * weight
+        # Keep it a probability whatever the weight
+        adjusted_likelihood = min(0.99, max(0.01, adjusted_likelihood))
 
         # Bayes' theorem: P(H|E) = P(E|H) * P(H) / P(E)
-        # Simplified: just multiply prior by likelihood
+        # Unnormalised: multiply prior by likelihood (normalised by the caller)
         return prior * adjusted_likelihood
 
     def _threshold_vote(
